@@ -66,6 +66,19 @@ def _cfg(text):
     return p
 
 
+def private_build(build):
+    """The build cache keeps only the three most recent entries and is shared by all checks: a long run can lose its
+    compiler to another check's build.  Work on a private copy of the two artefacts this check uses."""
+    import shutil
+    d = vlib.scratch("c04bin")
+    b = dict(build)
+    for k in ("aldor", "rt"):
+        dst = os.path.join(d, os.path.basename(build[k]))
+        shutil.copy2(build[k], dst)
+        b[k] = dst
+    return b
+
+
 def gen_cfg(stride, stride3, offset, ops=()):
     return _cfg("SPECIFICATION Spec\nCONSTANTS SIntW = 64\n          WordW = 64\n          Stride = %d\n"
                 "          Stride3 = %d\n          Offset = %d\n          OpFilter = {%s}\nCHECK_DEADLOCK FALSE\n"
@@ -302,7 +315,7 @@ def random_cases(rng, sig, n):
 def run(chk, tier):
     thorough = tier == "thorough"
     rng = random.Random(chk.seed)
-    build = vlib.vbuild()
+    build = private_build(vlib.vbuild())
     work = vlib.scratch("c04")
     chk.rule = ("one case = (builtin, argument tuple, evaluator); tuples come from the per-type boundary sets "
                 "(0, +-1, 2^k, 2^k+-1 for all k below the word size, limits, signs; both booleans; 128 characters), "
@@ -590,7 +603,7 @@ def replay(d):
     if not op or not ex:
         print("nothing to replay")
         return 0
-    build = vlib.vbuild()
+    build = private_build(vlib.vbuild())
     work = vlib.scratch("c04r")
     r = vlib.tlc("BuiltinsGen", gen_cfg(1000003, 1000003, 0, [op]), workers=2, timeout=900, extra=("-noGenerateSpecTE",))
     sig = G.parse_sig(r.printed)
@@ -627,8 +640,10 @@ Binding demonstration (2026-10-04, all with `bin/verif check C04 --tier quick`, 
 de0c5c0 with hooks/H4-builtins.diff applied plus the one-line mutation>; machine load average was 130-200 while these ran,
 so the wall times (460-620 s) say nothing about an idle machine; CPU cost of one quick run is about 500 CPU-seconds).
 
-Unchanged tree (no hook in /repo yet): exit 0, "C04 quick: held", hooks_missing = [cfold, fint], 59 013 cases x 3 routes +
-11 591 cases on the q2v route, 70 known-finding keys hit, no other violation.  Same with the hook worktree (hooks_missing = [],
+Unchanged tree (no H4 hook in /repo yet): exit 0, "C04 quick: held", hooks_missing = [cfold, fint], 59 013 cases x 3 routes +
+11 591 cases on the q2v route; at /repo de0c5c0 70 known-finding keys were hit and nothing else; the lead then committed
+hooks/fix-C04-cfold.diff as d59b0d5 (those 32 keys are now status "fixed"), and at /repo a6aa17b two further runs
+(VERIF_SEED=7 and the default seed) held with 26 known-finding keys hit.  Same with the hook worktree (hooks_missing = [],
 32 920 cases confirmed folded by a cfold event, 80 054 events validated).
 
 Mutations (each compiled; each reported VIOLATION and exit 1; the known findings stayed suppressed):
